@@ -99,7 +99,7 @@ def work(ctx, tier):
     n = (12000 if tier == "quick" else 300000) // ctx.nshards
     for k in range(n):
         sc = gen.rand_scenario(rng, p_special=0.03, specials=("abort", "nested_open"), p_budget=0.25, p_handler=0.4, p_abort=0.1, ncalls=(1, 2), placements=(k % 4 == 0), nonretry_bias=True,
-                               p_strategy_objects=0.35, rf_time=True, p_via_config=0.25, slow_hooks=(k % 5 == 2), p_exc_same=0.2, falsy_objects=True, p_res_none=0.1)
+                               p_strategy_objects=0.35, rf_time=True, p_via_config=0.25, slow_hooks=(k % 5 == 2), p_exc_same=0.2, falsy_objects=True, p_res_none=0.1, p_attempt_timeout=0.15)
         # richer tables: any subset shape, arbitrary class order
         if k % 2 == 0:
             cs = rng.sample(gen.CLASSES, rng.randint(0, 8))
